@@ -99,6 +99,9 @@ def _shr_wire(p, hw, W, iw):
 def _addcarryin(p, hw, W, iw):
     r = _o(hw, 'r', W['wr']); p.AddCarryIn(hw, 'dut', iw[0], iw[1], r, iw[2]); return [r]
 
+def _subborrowin(p, hw, W, iw):
+    r = _o(hw, 'r', W['wr']); p.SubBorrowIn(hw, 'dut', iw[0], iw[1], r, iw[2]); return [r]
+
 def _clz(p, hw, W, iw):
     r = _o(hw, 'r', W['wr']); z = _o(hw, 'z', 1); p.CountLeadingZeros(hw, 'dut', iw[0], r, z); return [r, z]
 
@@ -130,6 +133,7 @@ BLOCKS = [
     Blk('SignedAdd_ci', W4, ABC, 1, _add(True, False, True), legal=sadd_ok, gen=SADD, anchor=ARITH + ':SignedAdd'),
     Blk('SignedAdd_co', W4, AB, 2, _add(False, True, True), legal=sadd_ok, gen=SADD, anchor=ARITH + ':SignedAdd'),
     Blk('SignedAdd_ci_co', W4, ABC, 2, _add(True, True, True), legal=sadd_ok, gen=SADD, anchor=ARITH + ':SignedAdd'),
+    Blk('SubBorrowIn', W4, AB + [('bi', 'wci')], 1, _subborrowin, legal=lambda W: W['wr'] >= W['wa'], gen=('SubBorrowIn_propagate',), anchor=ARITH + ':SubBorrowIn'),
     Blk('Sub', W3, AB, 1, _bin('Sub'), gen=('Sub_propagate',), anchor=ARITH + ':Sub'),
     Blk('SignedSub', W3, AB, 1, _bin('SignedSub'), legal=sadd_ok, gen=SADD + ('Not_propagate',), anchor=ARITH + ':SignedSub'),
     Blk('Mul', W3, AB, 1, _bin('Mul'), gen=('Mul_propagate',), anchor=ARITH + ':Mul'),
